@@ -75,7 +75,14 @@ def gen_history(rng):
                     start = (rng.choice(prev) if prev and rng.chance(1, 2) else start + 0x10 * rng.below(256))
                     length = rng.choice([0x10, 0x38, 0x7F0, 0x1008, 0x10 * rng.range(1, 0x300)])
                 pgoff = 0x1000 * rng.below(16)
-                recs.append(["mmap", pid, tick(True), start, length, pgoff, "absent:%d" % lib])
+                earlier = [x for x in recs if x[0] == "mmap" and x[1] == pid]
+                if earlier and rng.chance(1, 5):
+                    # the same mapping announced once more, byte for byte (a dlclose / dlopen cycle that lands in the same hole, or a second announcement of
+                    # a live mapping): whatever was mapped over it in between, from now on this range is that library again
+                    _, _, _, start, length, pgoff, name = rng.choice(earlier)
+                    recs.append(["mmap", pid, tick(True), start, length, pgoff, name])
+                else:
+                    recs.append(["mmap", pid, tick(True), start, length, pgoff, "absent:%d" % lib])
             else:
                 # the fixture, mapped like the loader would: the code segment (or a page-aligned part of it) at bias + vaddr
                 svma, off, size = xseg
